@@ -167,6 +167,33 @@ impl<E: Elem> World<E> {
         }
     }
 
+    /// clear(): element-less 0x0 matrix, every element dropped
+    pub fn clear(&mut self, out: &mut Out, r: usize) {
+        let op = format!("clear {r}");
+        out.announce(&op);
+        let m = self.regs[r].as_mut().unwrap();
+        let res = catch(|| { m.clear(); });
+        let (order, _) = self.refs[r].take().unwrap();
+        self.refs[r] = Some((order, Ref { nrows: 0, ncols: 0, rows: Vec::new() }));
+        if res.is_none() { out.oracle_fail(&format!("{op}: panicked")); }
+        out.observe(&format!("{} | {}", if res.is_some() { "ok" } else { "panic" }, self.reg_str(r)));
+        self.check_reg(out, r, &op);
+    }
+
+    /// shrink_to_fit / shrink_to(n): nothing observable changes
+    pub fn shrink(&mut self, out: &mut Out, r: usize, to: Option<usize>) {
+        let op = match to { None => format!("shrink {r} fit"), Some(n) => format!("shrink {r} {n}") };
+        out.announce(&op);
+        let before = self.reg_str(r);
+        let m = self.regs[r].as_mut().unwrap();
+        let res = catch(|| { match to { None => { m.shrink_to_fit(); } Some(n) => { m.shrink_to(n); } } });
+        if res.is_none() || self.reg_str(r) != before {
+            out.oracle_fail(&format!("{op}: the matrix changed from `{before}` to `{}`", self.reg_str(r)));
+        }
+        out.observe(&format!("ok | {}", self.reg_str(r)));
+        self.check_reg(out, r, &op);
+    }
+
     /// reshape: acts on the memory-order sequence; anything but the same size is SizeMismatch
     pub fn reshape(&mut self, out: &mut Out, r: usize, nr: usize, nc: usize) {
         let op = format!("reshape {r} {nr} {nc}");
@@ -1118,9 +1145,61 @@ impl World<Tok> {
         let m = self.regs[a].as_ref().unwrap().clone();
         let (o, rf) = self.refs[a].clone().unwrap();
         let want = Ref { nrows: rf.nrows, ncols: rf.ncols, rows: rf.rows.iter().map(|r| r.iter().map(|e| format!("{e}'")).collect()).collect() };
-        out.observe(&format!("ok | {}", st_str(&m)));
+        let text = format!("ok | {}", st_str(&m));
         self.regs[dst] = Some(m);
         self.refs[dst] = Some((o, want));
+        out.observe(&text);
         self.check_reg(out, dst, &op);
+    }
+
+    /// apply(f): every element updated in place, once
+    pub fn apply(&mut self, out: &mut Out, r: usize) {
+        let op = format!("apply {r}");
+        out.announce(&op);
+        let calls = std::cell::Cell::new(0usize);
+        let n = self.regs[r].as_ref().unwrap().size();
+        let m = self.regs[r].as_mut().unwrap();
+        let res = catch(|| { m.apply(|e| { calls.set(calls.get() + 1); e.val = format!("f({})", e.val); }); });
+        let (order, rf) = self.refs[r].take().unwrap();
+        self.refs[r] = Some((order, Ref { nrows: rf.nrows, ncols: rf.ncols, rows: rf.rows.iter().map(|x| x.iter().map(|e| format!("f({e})")).collect()).collect() }));
+        if res.is_none() || calls.get() != n { out.oracle_fail(&format!("{op}: closure called {} times for {n} elements", calls.get())); }
+        out.observe(&format!("ok | {}", self.reg_str(r)));
+        self.check_reg(out, r, &op);
+    }
+
+    /// map (consuming) / map_ref: a new matrix of the same shape and order
+    pub fn map(&mut self, out: &mut Out, dst: usize, r: usize, by_ref: bool) {
+        let op = format!("{} {dst} {r}", if by_ref { "map_ref" } else { "map" });
+        out.announce(&op);
+        let (order, rf) = self.refs[r].clone().unwrap();
+        let want = Ref { nrows: rf.nrows, ncols: rf.ncols, rows: rf.rows.iter().map(|x| x.iter().map(|e| format!("g({e})")).collect()).collect() };
+        let res = if by_ref {
+            let m = self.regs[r].as_ref().unwrap();
+            catch(|| m.map_ref(|e| Tok::new(format!("g({})", e.val))))
+        } else {
+            let m = self.regs[r].take().unwrap();
+            self.refs[r] = None;
+            catch(|| m.map(|e| Tok::new(format!("g({})", e.val))))
+        };
+        let head = match res {
+            Some(Ok(x)) => { self.regs[dst] = Some(x); self.refs[dst] = Some((order, want)); "ok".to_string() }
+            Some(Err(e)) => { out.oracle_fail(&format!("{op}: {}", err_name(e))); format!("err {}", err_name(e)) }
+            None => { out.oracle_fail(&format!("{op}: panicked")); "panic".to_string() }
+        };
+        out.observe(&format!("{head} | {} | {}", self.reg_str(dst), self.reg_str(r)));
+        self.check_reg(out, dst, &op);
+        self.check_reg(out, r, &op);
+    }
+
+    /// contains(&value)
+    pub fn contains(&mut self, out: &mut Out, r: usize, payload: &str) {
+        let op = format!("contains {r} {payload}");
+        let probe = Tok::new(payload);
+        out.announce(&op);
+        let res = catch(|| self.regs[r].as_ref().unwrap().contains(&probe));
+        let (_, rf) = self.refs[r].as_ref().unwrap();
+        let want = rf.rows.iter().flatten().any(|e| e == payload);
+        if res != Some(want) { out.oracle_fail(&format!("{op}: returned {:?}, expected {want}", res)); }
+        out.observe(&format!("ok {}", res.unwrap_or(false)));
     }
 }
